@@ -1136,3 +1136,15 @@ impl<Item, Err, O: Observer<Item, Err>> Observer<Item, Err> for QuietOnFinished<
   fn complete(self) { if self.observer.is_finished() { return; } self.observer.complete() }
   fn is_finished(&self) -> bool { self.observer.is_finished() }
 }
+
+// ---------------------------------------------------------------- C13.Z6
+/// an operator that does not subscribe its source when the observer is already finished
+pub struct LazySourceOp<S> { source: S }
+impl<Item, Err, O, S> Observable<Item, Err, O> for LazySourceOp<S>
+where S: Observable<Item, Err, O, Unsub = ()>, O: Observer<Item, Err> {
+  type Unsub = ();
+  fn actual_subscribe(self, observer: O) -> Self::Unsub {
+    if observer.is_finished() { return; }
+    self.source.actual_subscribe(observer)
+  }
+}
